@@ -74,6 +74,14 @@ def build():
     from vf.unit import Fragment, AnchorLost
     wfn = raw.impl_fn(r"impl<'data> ProguardCache<'data>", "write")
     tail = raw.region(wfn, "let string_bytes = string_table.into_bytes();", "Ok(())", "tail")
+    # anchor (not an obligation): the sink the regions write to is the caller's writer, wrapped by PaddedWriter::new and nothing else.
+    # The regions are proved for PaddedWriter<W> with any W: Write; PaddedWriter::new's contract (r.inner == inner) ties W to the
+    # caller's sink only if this binding is the statement below. Any other shape (e.g. an extra buffering layer) => undecided.
+    head = re.sub(r"//[^\n]*", "", tail.src[wfn.start:tail.start])
+    head = head[head.index("{"):]
+    bind = re.findall(r"let\s+mut\s+writer\s*=\s*PaddedWriter::new\(\s*writer\s*\)\s*;", head)
+    if len(bind) != 1 or len(re.findall(r"\bwriter\b", head)) != 2:
+        raise AnchorLost("write: the sink binding before the tail is not exactly `let mut writer = PaddedWriter::new(writer);`")
     mb_ = tail._find("let mut members = Vec::new();")
     tl = tail.loops()
     if not tl:
